@@ -194,16 +194,22 @@ def _optimise_operator(op):
 
             same_leaf[key] = [res_op, FieldAdapter(res_op.target, next(prepend_id) + str(id(res_op)))]
 
+            truncated = set()
             for leaf in id_leaf[key]:
                 parent = nodes[leaf[0]][0]
                 edited.add(id_dic[id(parent)][0])
                 attr = left_parser(leaf[1])
                 leaf_op = getattr(parent, attr)
                 if isinstance(leaf_op, _OpChain):
+                    if id(leaf_op) in truncated:
+                        # The same chain object hangs under several parents
+                        # and has been cut in place already
+                        continue
                     if first_difference == len(leaf_op._ops):
                         setattr(parent, attr, same_leaf[key][1])
                     else:
                         leaf_op._ops = leaf_op._ops[:-first_difference] + (same_leaf[key][1],)
+                        truncated.add(id(leaf_op))
                 else:
                     setattr(parent, attr, same_leaf[key][1])
         return key_list_leaf, same_leaf
